@@ -910,5 +910,7 @@ fn main() {
         }
     }
     rep.merge(out);
-    std::process::exit(rep.finish());
+    let code = rep.finish();
+    drop(dirguard);
+    std::process::exit(code);
 }
